@@ -330,14 +330,22 @@ def gen_callbacks(seed, tier):
         ncb = 0
         for _ in range(rng.randint(4, 16)):
             r = rng.random()
-            if r < 0.45:
+            cells = [(j + 1, c) for j, x in enumerate(b.rows) for c in range(1, x["n"] + 1)]
+            if r < 0.1 and cells and any(not x["sep"] for x in b.rows):
+                # a by-value copy of an existing cell (callbacks and properties come along) added to some row
+                a, c = rng.choice(cells)
+                tgt = rng.choice([j + 1 for j, x in enumerate(b.rows) if not x["sep"]])
+                b.ops.append({"op": "rowaddcell", "r": tgt, "from": {"kind": "cell", "r": a, "c": c}})
+                b.rows[tgt - 1]["n"] += 1
+                ncols = max([ncols] + [x["n"] for x in b.rows if x["tbl"]])
+            elif r < 0.45:
                 b.step(maxcells=3, items=lambda: S("a"))
                 op = b.ops[-1]
                 if op["op"] == "headers":
                     hdr = len(op["items"])
                     ncols = max(ncols, hdr)
                 ncols = max([ncols] + [x["n"] for x in b.rows if x["tbl"]])
-            elif r < 0.8 and ncb < 4:
+            elif r < 0.8 and ncb < 5:
                 owners = [{"kind": "table", "t": 1}] * 3 + [{"kind": "foreign"}]
                 owners += [{"kind": "column", "t": 1, "n": c} for c in range(0, ncols + 1)]
                 owners += [{"kind": "row", "r": j + 1} for j in range(len(b.rows))]
@@ -369,8 +377,12 @@ def rnd_text_item(rng, texts=TEXTS, sized=0.15):
         # a single-line item declaring its width
         return {"k": "obj", "caps": ["String", "Width"], "strv": rng.choice([t for t in texts if "\n" not in t and t != ""]),
                 "w": rng.randint(0, 9)}
-    if r < sized:
+    if r < sized * 0.75:
         return {"k": "obj", "caps": ["String", "Height"], "strv": rng.choice(texts), "h": rng.randint(-1, 4)}
+    if r < sized:
+        # both overrides at once; also an empty text that still claims a width
+        return {"k": "obj", "caps": ["String", "Height", "Width"], "strv": rng.choice([t for t in texts if "\n" not in t]),
+                "h": rng.randint(0, 3), "w": rng.randint(0, 9)}
     if r < sized + 0.05:
         return {"k": "nil"}
     if r < sized + 0.1:
@@ -503,8 +515,13 @@ def gen_html(seed, tier):
             b.ops.append({"op": "htmlopts", "w": 1, "id": hs() if rng.random() < 0.6 else "", "class": hs() if rng.random() < 0.6 else "",
                           "caption": hs() if rng.random() < 0.6 else "", "gen": 1 if rng.random() < 0.6 else 0,
                           "genvals": [hs() for _ in range(rng.randint(0, 3))]})
-        for _ in range(rng.randint(1, 2)):
+        for _ in range(rng.randint(1, 3)):
             b.ops.append({"op": "render", "w": 1, "entry": rng.choice(["Render", "RenderTo"])})
+            if rng.random() < 0.5:
+                # the wrapper's options change between renders (generator set / replaced, strings changed)
+                b.ops.append({"op": "htmlopts", "w": 1, "id": hs() if rng.random() < 0.5 else "", "class": hs() if rng.random() < 0.5 else "",
+                              "caption": hs() if rng.random() < 0.5 else "", "gen": 1, "genvals": [hs() for _ in range(rng.randint(0, 3))]})
+                b.ops.append({"op": "render", "w": 1, "entry": rng.choice(["Render", "RenderTo"])})
         out.append(b.ops)
     return out
 
@@ -653,12 +670,21 @@ def gen_paths(seed, tier):
             for c in range(0, ncols + 1):
                 if rng.random() < 0.4:
                     b.ops.append({"op": "setprop", "owner": {"kind": "column", "t": 1, "n": c}, "k": "k_align", "v": rng.choice(["vL", "vR", "vC"])})
+        if rng.random() < 0.25:
+            # a user callback (sometimes failing) registered before any further wrapper exists: it must not
+            # change what is rendered (the reference path has no such callback)
+            b.ops.append({"op": "regcb", "t": 1, "owner": {"kind": "table", "t": 1}, "time": rng.choice(["render", "pre", "post"]),
+                          "target": "cell", "fails": 1 if rng.random() < 0.7 else 0})
         for _ in range(rng.randint(0, 3)):
             over = {"w": rng.randint(1, nwr)} if nwr and rng.random() < 0.7 else {"t": 1}
             if rng.random() < 0.2:
                 b.ops.append({"op": "wrap", "kind": "auto", "style": rng.choice(AUTO_STYLES), "over": over})
             else:
-                b.ops.append({"op": "wrap", "kind": rng.choice(WRAP_KINDS), "over": over})
+                k = rng.choice(WRAP_KINDS)
+                b.ops.append({"op": "wrap", "kind": k, "over": over})
+                if k == "text" and rng.random() < 0.5:
+                    # a non-default decoration on this text wrapper (matters when it is wrapped again)
+                    b.ops.append(rnd_decor_op(rng, nwr + 1))
             nwr += 1
         render_ops(rng, b, nwr, rng.randint(1, 4))
         out.append(b.ops)
@@ -762,6 +788,12 @@ def gen_auto(seed, tier):
             nm = rng.choice(names)
             fields = rng.sample(DECOR_FIELDS, rng.randint(1, 5))
             ops.append({"op": "regdecor", "name": nm, "custom": dict(zip(fields, rng.sample(GLYPHS, len(fields))))})
+            regd.append(nm)
+        if i % 4 == 0:
+            # list, register a new name, list twice: the listing must follow the registry
+            nm = rng.choice(names)
+            ops = [{"op": "liststyles"}] + ops + [{"op": "regdecor", "name": nm, "custom": {"Horizontal": "~"}},
+                                                   {"op": "liststyles"}, {"op": "liststyles"}, {"op": "autonew", "style": nm}]
             regd.append(nm)
         for _ in range(rng.randint(1, 6)):
             if rng.random() < 0.15:
